@@ -15,7 +15,8 @@ RULE = ('shard cases = (source kind, n, shard-count chain k1[,k2[,k3]], per-leve
         'for small n and drawn by Hypothesis up to n=500/depth 4; merged-sequence cases = (composition of range(n) '
         'into possibly-empty sub-sequences, container kind, read-ahead size) enumerated for n<=5/8 with every index '
         'and every (start, stop) slice checked against a Python list; non-trivial = remainder != 0, k > n, depth >= 2, '
-        'an offset > 0, an empty sub-sequence, or a negative index; distinct = distinct canonical case JSON')
+        'an offset > 0, an empty sub-sequence, or a negative index; distinct = distinct canonical case JSON'
+        '; also: index-only sources, iterator checkpoint/restore for every shard kind, numpy integer shard indices, sources of up to 520 elements')
 ASSUMPTIONS = [
     'the reference for MergedSequences is the Python list of the concatenated elements (indexing, slicing without step, iteration, len)',
     'offsets passed to shard() lie in 0..len(shard) (what SequenceIterator.state produces)',
